@@ -90,9 +90,24 @@ def check_nf(m, start, inc, n, viol, tag):
         viol.append(('NF-COORD', '%s start=%s inc=%s n=%s: coordinates deviate by %g' % (tag, start, inc, n, np.abs(got - exp).max())))
 
 
+_ANG = {}
+
+
 def check_ff(m, th, ph, viol, tag):
     import mininec.mininec as mm
-    m.compute_far_field(mm.Angle(*th), mm.Angle(*ph))
+    # three of four requests re-use ONE pair of Angle objects with their attributes changed (a script scanning cuts),
+    # consecutively; every fourth passes new objects
+    _ANG['n'] = _ANG.get('n', 0) + 1
+    if _ANG['n'] % 4 and 'z' in _ANG:
+        za, aa = _ANG['z'], _ANG['a']
+        za.initial, za.inc, za.number = th
+        aa.initial, aa.inc, aa.number = ph
+        tag += ' (same Angle objects, attributes changed)'
+    else:
+        za, aa = mm.Angle(*th), mm.Angle(*ph)
+        _ANG.setdefault('z', za)
+        _ANG.setdefault('a', aa)
+    m.compute_far_field(za, aa)
     ff = m.far_field
     zen = np.array(ff.zen).flatten()
     azi = np.array(ff.azi).flatten()
@@ -117,6 +132,7 @@ def close_print(a, b):
 
 def evaluate(c):
     viol, canon, nontriv, ev = [], [], [], 0
+    _ANG.clear()        # the re-used Angle pair lives for one case: a case replays identically on its own
     k = c['kind']
     if k == 'nf1':
         m = model()
